@@ -148,6 +148,33 @@ fn render_case<F: Backend + RenderHints>(
         chain[i]
     };
     let kmax = (d as usize).div_ceil(root) * root;
+    // the sample positions themselves: the documented screen-to-world map (x = -1 at
+    // column 0, +1 one voxel beyond the right edge; y = +1 one voxel beyond the top edge;
+    // z = -1 at layer 0 with +z out of the screen; the shortest side spans [-1, 1), the
+    // map is centred) followed by world_to_model, written from the documentation
+    {
+        let sc = 2.0 / (w.min(h).min(d) as f64);
+        #[rustfmt::skip]
+        let s2w = nalgebra::Matrix4::<f64>::new(
+            sc, 0.0, 0.0, -(w as f64) / 2.0 * sc,
+            0.0, -sc, 0.0, ((h as f64) / 2.0 - 1.0) * sc,
+            0.0, 0.0, sc, -(d as f64) / 2.0 * sc,
+            0.0, 0.0, 0.0, 1.0);
+        let want = m.cast::<f64>() * s2w;
+        let got = cfg.mat().cast::<f64>();
+        for r in 0..4 {
+            for c in 0..4 {
+                if !((got[(r, c)] - want[(r, c)]).abs() <= 1e-5 * (1.0 + want[(r, c)].abs())) {
+                    cx.violation(
+                        "screen-to-model matrix differs from the documented mapping",
+                        desc(),
+                        format!("entry ({r},{c}) of VoxelRenderConfig::mat() is {}, the documented screen-to-world map followed by world_to_model gives {}", got[(r, c)], want[(r, c)]),
+                    );
+                    return;
+                }
+            }
+        }
+    }
     let mat = cfg.mat().cast::<f64>();
     let free = s.free.unwrap_or(0.0) as f64;
     let model = |i: f64, j: f64, k: f64| -> [f64; 3] {
@@ -333,7 +360,7 @@ impl Check for C07 {
     }
     fn meta(&self, tier: Tier) -> Meta {
         Meta {
-            rule: "case = one voxel render; full Cartesian product of 9 shapes (sphere, box, two slabs with a gap (occlusion), slab with a hole, tilted half-space, small sphere above a plate, empty, full, sphere with a free radius) x voxel grids with width != height != depth incl. non-multiples of every tile size x 11 tile-size chains (4 with a root that is not a power of two) x 6 view transforms (identity, scale, z translation, 90-degree rotation about x, general rotation+scale, camera perspective with bottom row (0,0,0.3,1)) x thread pool / none x VM / JIT; plus every shape with the backend's DEFAULT tile sizes on grids larger than a root tile (70x40x33, 20x66x70; thorough 3 more) with no pool / stand-in pool / ThreadPool::Global; oracle: brute force over the whole column (f64 evaluation of the same program at cfg.mat()*(i,j,k,1)): depth = 1 + highest k < D with a decidably negative value, 0 if none, and D when that is >= D-1 (the implementation's documented clamp; counted separately); columns negative within the top root tile beyond the grid, or with an undecidable voxel at or above the surface, are skipped (counted); the normal of an unclamped surface pixel must match the f64 dual-number gradient of shape o transform at voxel (i,j,depth-1): direction and magnitude within 1e-3".into(),
+            rule: "case = one voxel render; full Cartesian product of 9 shapes (sphere, box, two slabs with a gap (occlusion), slab with a hole, tilted half-space, small sphere above a plate, empty, full, sphere with a free radius) x voxel grids with width != height != depth incl. non-multiples of every tile size x 11 tile-size chains (4 with a root that is not a power of two) x 6 view transforms (identity, scale, z translation, 90-degree rotation about x, general rotation+scale, camera perspective with bottom row (0,0,0.3,1)) x thread pool / none x VM / JIT; plus every shape with the backend's DEFAULT tile sizes on grids larger than a root tile (70x40x33, 20x66x70; thorough 3 more) with no pool / stand-in pool / ThreadPool::Global; oracle: cfg.mat() must equal the DOCUMENTED screen-to-world map (written independently from region.rs' documentation) followed by world_to_model; brute force over the whole column (f64 evaluation of the same program at cfg.mat()*(i,j,k,1)): depth = 1 + highest k < D with a decidably negative value, 0 if none, and D when that is >= D-1 (the implementation's documented clamp; counted separately); columns negative within the top root tile beyond the grid, or with an undecidable voxel at or above the surface, are skipped (counted); the normal of an unclamped surface pixel must match the f64 dual-number gradient of shape o transform at voxel (i,j,depth-1): direction and magnitude within 1e-3".into(),
             bounds: match tier {
                 Tier::Quick => "5 grids up to 17 voxels per axis".into(),
                 Tier::Thorough => "13 grids up to 17 voxels per axis".into(),
